@@ -37,7 +37,9 @@ ParameterRemapBasicStringPtrToString(CPPType *orig_type) :
  */
 void ParameterRemapBasicStringPtrToString::
 pass_parameter(std::ostream &out, const string &variable_name) {
-  out << "&std::string(" << variable_name << ")";
+  // Bind the temporary to a const reference first: the address of an rvalue
+  // cannot be taken, but the temporary lives until the call returns.
+  out << "&static_cast<const std::string &>(std::string(" << variable_name << "))";
 }
 
 /**
@@ -70,7 +72,7 @@ ParameterRemapBasicWStringPtrToWString(CPPType *orig_type) :
  */
 void ParameterRemapBasicWStringPtrToWString::
 pass_parameter(std::ostream &out, const string &variable_name) {
-  out << "&std::wstring(" << variable_name << ")";
+  out << "&static_cast<const std::wstring &>(std::wstring(" << variable_name << "))";
 }
 
 /**
